@@ -1917,6 +1917,24 @@ fn main() {
                 }
                 format!("{{\"cases\":{},\"panics\":{}}}", cases, panics)
             }
+            // enum_after_array: an attach whose source carries `outcomes` / `capabilities` (AMQP arrays, decoded through
+            //   deserialize_enum) FOLLOWED by a target (a descriptor-selected enum): encode, decode with both readers, compare
+            "enum_after_array" => {
+                use fe2o3_amqp_types::definitions::{Handle, ReceiverSettleMode, Role, SenderSettleMode};
+                use fe2o3_amqp_types::messaging::{Source, Target, TargetArchetype};
+                use fe2o3_amqp_types::performatives::Attach;
+                use fe2o3_amqp_types::primitives::{Array, Symbol};
+                let symbols = |items: &[&str]| -> Array<Symbol> { Array::from(items.iter().map(|s| Symbol::from(*s)).collect::<Vec<_>>()) };
+                let source = Source::builder().address("q1").outcomes(symbols(&["amqp:accepted:list", "amqp:rejected:list"])).capabilities(symbols(&["queue"])).build();
+                let target = Target::builder().address("q1").build();
+                let attach = Attach { name: "l".to_string(), handle: Handle(0), role: Role::Sender, snd_settle_mode: SenderSettleMode::Mixed, rcv_settle_mode: ReceiverSettleMode::First, source: Some(Box::new(source)), target: Some(Box::new(TargetArchetype::Target(target))), unsettled: None, incomplete_unsettled: false, initial_delivery_count: Some(0), max_message_size: None, offered_capabilities: None, desired_capabilities: None, properties: None };
+                let bytes = serde_amqp::to_vec(&attach).unwrap();
+                let a = serde_amqp::from_slice::<Attach>(&bytes).map(|x| format!("{:?}", x));
+                let b = serde_amqp::from_reader::<Attach>(&bytes[..]).map(|x| format!("{:?}", x));
+                let want = format!("{:?}", attach);
+                let ok = matches!((&a, &b), (Ok(x), Ok(y)) if *x == want && *y == want);
+                format!("{{\"roundtrips\":{},\"slice_ok\":{},\"stream_ok\":{}}}", ok, a.is_ok(), b.is_ok())
+            }
             "framedec" => {
                 use bytes::BytesMut;
                 use tokio_util::codec::Decoder;
